@@ -179,9 +179,14 @@ func (ctxt *CredentialHelperContext) GetCredentialHelper(helper CredentialHelper
 		}
 	}
 
-	ctxt.commandCredHelper.protectProtocol = ctxt.urlConfig.Bool("credential", rawurl, "protectProtocol", true)
+	// Whether carriage returns are refused depends on the URL this wrapper is
+	// for, so the setting must not live on the helper shared by all wrappers
+	// of this context: a wrapper obtained earlier (and still in use, e.g.
+	// across a redirect) would otherwise run under a later URL's setting.
+	commandCredHelper := *ctxt.commandCredHelper
+	commandCredHelper.protectProtocol = ctxt.urlConfig.Bool("credential", rawurl, "protectProtocol", true)
 
-	return CredentialHelperWrapper{CredentialHelper: NewCredentialHelpers(append(helpers, ctxt.commandCredHelper)), Input: input, Url: u}
+	return CredentialHelperWrapper{CredentialHelper: NewCredentialHelpers(append(helpers, &commandCredHelper)), Input: input, Url: u}
 }
 
 // AskPassCredentialHelper implements the CredentialHelper type for GIT_ASKPASS
